@@ -117,9 +117,10 @@ func VerifPathLockWait() {
 	verifAssert(err == nil, "first Open succeeds")
 	var mu verifFlag
 	done := make(chan *File, 1)
+	extra := []Flag{0, FlagUpdMaxSize, FlagUnboundMaxSize | FlagUpdMaxSize}[verifChoose(3)]
 	go func() {
 		wopts := opts
-		wopts.Flags |= FlagWaitLock
+		wopts.Flags |= FlagWaitLock | extra
 		f, werr := Open(path, 0600, wopts)
 		verifAssert(mu.get(), "Open with the wait flag returns only after the first File was closed")
 		verifAssert(werr == nil && f != nil, "and then succeeds")
@@ -133,8 +134,14 @@ func VerifPathLockWait() {
 	mu.set()
 	verifAssert(f1.Close() == nil, "Close succeeds")
 	f2 := <-done
-	verifAssert(f2 != nil && f2.Close() == nil, "the waiting Open completed after Close")
+	verifAssert(f2 != nil, "the waiting Open completed after Close")
+	f3, err3 := Open(path, 0600, opts)
+	verifAssert(err3 != nil && f3 == nil, "while the waiter holds the file, a third Open fails")
+	verifAssert(f2.Close() == nil, "Close succeeds")
 	verifAssert(!verifFlockHeld(path+".lock"), "the path lock is free at the end")
+	f4, err4 := Open(path, 0600, opts)
+	verifAssert(err4 == nil && f4 != nil, "and the path can be opened again")
+	verifAssert(f4.Close() == nil, "Close succeeds")
 	verifReach("end")
 }
 
